@@ -6,7 +6,7 @@
    route_ok, its DisjunctionError by exists_disjoint_pair (single pair, candidate paths of at most `cutoff` links).
    Findings K1 (step 4 on the short list), K2, K3 (aggregation) of the pinned tree are repaired in /repo; their
    witnesses are kept as corpus cases and as the regression examples below. *)
-From Verif Require Import Prelude Model.Route Proofs.Route Model.Disjoint Proofs.Disjoint.
+From Verif Require Import Prelude Model.Route Proofs.Route Model.Disjoint Proofs.Disjoint Gen.DisjointGen Proofs.DisjointGen.
 Open Scope Z_scope.
 
 (* model of request.py isdisjoint: 0 exactly when the two lists have no common consecutive pair *)
@@ -113,6 +113,41 @@ Theorem c12_aggregate_distinct_untouched :
   aggregate rqs gs = mkS (map a_id rqs) (seq 0 (length rqs)) gs.
 Proof. exact aggregate_distinct_untouched. Qed.
 Print Assumptions c12_aggregate_distinct_untouched.
+
+(* ---------- translator tie: decision code of /repo re-translated on every run (Gen/DisjointGen.v, harness/pygen_c11.py) ---------- *)
+Theorem C12_source_isdisjoint : forall p1 p2, g_isdisjoint p1 p2 = isdisjoint p1 p2.
+Proof. exact gen_isdisjoint. Qed.
+Print Assumptions C12_source_isdisjoint.
+
+(* step 1: candidates are enumerated up to 80 links, the bound under which completeness is claimed and judged *)
+Theorem C12_source_cutoff : Z.to_nat g_cutoff = search_cutoff /\ search_cutoff = 80%nat.
+Proof. split; [exact gen_cutoff|reflexivity]. Qed.
+Print Assumptions C12_source_cutoff.
+
+(* step 2: a candidate is kept exactly when neither it nor its reverse shares a consecutive pair with the chosen path *)
+Theorem C12_source_step2 :
+  forall a b c, g_step2_accept (g_step2_conflicts a b c) = true <-> isdisjoint a c = 0 /\ isdisjoint b c = 0.
+Proof. exact gen_step2_accept. Qed.
+Print Assumptions C12_source_step2.
+
+(* step 4: the include list is tested against the FULL element path (not the ROADM short list); one STRICT hop makes the
+   list strict *)
+Theorem C12_source_step4 :
+  forall nl full short strict_list,
+  g_step4_ok nl full short = ispart nl full /\ g_step4_strict strict_list = existsb (fun b => b) strict_list.
+Proof. intros. split; reflexivity. Qed.
+Print Assumptions C12_source_step4.
+
+(* step 5: a group without candidate raises DisjunctionError, unconditionally *)
+Theorem C12_source_step5 : g_step5 false = Err "DisjunctionError" /\ g_step5 true = Ok tt.
+Proof. split; reflexivity. Qed.
+Print Assumptions C12_source_step5.
+
+(* compare_reqs: the group test is the shape test of the aggregation model, the compared attributes are the signature *)
+Theorem C12_source_compare_reqs :
+  (forall r1 r2 gs, g_same_disj r1 r2 gs = same_disj r1 r2 gs) /\ g_compared_attrs = compared_attrs.
+Proof. split; [exact gen_same_disj|exact gen_compared_attrs]. Qed.
+Print Assumptions C12_source_compare_reqs.
 
 (* ---------- non-vacuity ---------- *)
 (* triangle A B C (f11_net has no B-C line): A->C direct and A->B share nothing; A->C and C->A share the link *)
